@@ -206,6 +206,14 @@ GOALS = {
                          [{"a": "Reload", "t": "g1"}, {"a": "Get", "s": "s1", "t": "g1", "what": "desc sub", "since": 0, "before": 0, "limit": 0, "chan": False},
                           {"a": "SetDesc", "s": "s2", "t": "g1", "auth": ["J", "R"], "public": "x", "chan": False},
                           {"a": "DelTopic", "s": "s2", "t": "g1", "hard": True, "chan": False}]),
+    "pending_transfer_accepted": ('st.topics["g1"].exists /\\ st.subs["g1"]["u2"].st = "live" /\\ st.topics["g1"].owner = "u1" /\\ st.cache["g1"].loaded '
+                                  '/\\ "O" \\in M(st.subs["g1"]["u2"].given) /\\ "O" \\notin M(st.subs["g1"]["u2"].want) /\\ "g1" \\in M(st.sess["s2"].subs)',
+                                  [{"a": "SetSelf", "s": "s2", "t": "g1", "mode": ["J", "R", "A", "S", "O"], "chan": False},
+                                   {"a": "Get", "s": "s2", "t": "g1", "what": "desc sub", "since": 0, "before": 0, "limit": 0, "chan": False},
+                                   {"a": "Reload", "t": "g1"},
+                                   {"a": "Sub", "s": "s1", "t": "g1", "mode": ["J", "R", "A", "S", "O"], "chan": False, "bg": False},
+                                   {"a": "SetSelf", "s": "s1", "t": "g1", "mode": ["J", "R", "A", "S", "O"], "chan": False},
+                                   {"a": "Get", "s": "s2", "t": "g1", "what": "desc sub", "since": 0, "before": 0, "limit": 0, "chan": False}]),
     "pending_transfer_unloaded": ('st.topics["g1"].exists /\\ st.subs["g1"]["u2"].st = "live" /\\ st.topics["g1"].owner = "u1" '
                                   '/\\ "O" \\in M(st.subs["g1"]["u2"].given) /\\ "O" \\notin M(st.subs["g1"]["u2"].want) /\\ ~st.cache["g1"].loaded',
                                   [{"a": "DelTopic", "s": "s2", "t": "g1", "hard": True, "chan": False},
@@ -334,6 +342,18 @@ SUSP_GOALS = {
                                      {"a": "Suspend", "s": "ROOT", "u": "u1", "on": True}, _pub("s2", "g1", "c2"), _pub("s2", "p12", "c2"),
                                      {"a": "Suspend", "s": "ROOT", "u": "u1", "on": False}, _pub("s2", "g1"), _pub("s2", "p12")]),
 }
+# a channel-enabled group with a full member and a channel reader attached (C02: names per recipient, channel push)
+CHAN_GOALS = {
+    "channel_member_and_reader_attached": ('st.topics["g1"].exists /\\ st.topics["g1"].ischan /\\ "g1" \\in M(st.sess["s1"].subs) /\\ "g1" \\in M(st.sess["s2"].subs) '
+                                           '/\\ st.subs["g1"]["u2"].st = "live" /\\ (\\E x \\in AttOf(st.cache["g1"]) : x.s = "s3" /\\ x.chan)',
+                                           [{"a": "Pub", "s": "s2", "t": "g1", "c": "c1", "noecho": False, "chan": True},
+                                            {"a": "Pub", "s": "s1", "t": "g1", "c": "c2", "noecho": False, "chan": False},
+                                            {"a": "SetSelf", "s": "s1", "t": "g1", "mode": ["J", "R", "W", "A", "S", "D", "O"], "chan": False},
+                                            {"a": "SetSelf", "s": "s2", "t": "g1", "mode": ["J", "R", "W"], "chan": False},
+                                            {"a": "Pub", "s": "s1", "t": "g1", "c": "c1", "noecho": False, "chan": False},
+                                            {"a": "Pub", "s": "s3", "t": "g1", "c": "c2", "noecho": False, "chan": True},
+                                            {"a": "Pub", "s": "s1", "t": "g1", "c": "c2", "noecho": True, "chan": True}]),
+}
 # a reader without delete permission asks for a HARD delete (silently degrades to soft: nobody else's view changes)   C04
 HIST_GOALS = {
     "hard_delete_by_non_deleter": ('st.topics["g1"].exists /\\ st.topics["g1"].seq >= 2 /\\ st.subs["g1"]["u2"].st = "live" /\\ "R" \\in Eff(st.subs["g1"]["u2"]) '
@@ -370,7 +390,7 @@ OBO_GOALS = {
 }
 
 
-def goal_behaviours(ctx, users, sess, topics, names=None, maxsubs=3, marks=False, perms=False, suspend_root=None, obo_root=None, hist=False, obo_pub_root=None):
+def goal_behaviours(ctx, users, sess, topics, names=None, maxsubs=3, marks=False, perms=False, suspend_root=None, obo_root=None, hist=False, obo_pub_root=None, chan=False):
     import concurrent.futures
     goals = dict(GOALS)
     p2p = "p12" in topics
@@ -385,6 +405,8 @@ def goal_behaviours(ctx, users, sess, topics, names=None, maxsubs=3, marks=False
             goals[k] = (e, json.loads(json.dumps(tail).replace('"ROOT"', json.dumps(obo_root))))
     if hist:
         goals.update(HIST_GOALS)
+    if chan:
+        goals.update(CHAN_GOALS)
     if obo_pub_root:
         for k, (e, tail) in OBO_PUB_GOALS.items():
             goals[k] = (e, json.loads(json.dumps(tail).replace('"ROOT"', json.dumps(obo_pub_root))))
@@ -406,13 +428,15 @@ def goal_behaviours(ctx, users, sess, topics, names=None, maxsubs=3, marks=False
     consts_susp = mc_consts(users, sess, topics, DEV_BUILT, ["-", "JRW"], ["-", "JRW"], ["NewGrp", "Sub", "P2P"], [], maxseq=1, maxsubs=maxsubs)
     consts_obo = mc_consts(users, sess, topics, DEV_BUILT, ["-", "JRW"], ["-", "JRW"], ["NewGrp", "Sub", "Pub", "DelMsg"], [], maxseq=3, maxsubs=maxsubs,
                            delranges=[[(1, 0)], [(2, 0)]], maxdel=2)
+    # (a channel's default access has no J: a full member needs the owner's invitation)
+    consts_chan = mc_consts(users, sess, topics, DEV_BUILT, ["-"], ["-", "JRWP"], ["NewGrp", "Sub", "SetOther", "Chan"], [], maxsubs=maxsubs)
     consts_perms = mc_consts(users, sess, topics, DEV_BUILT, ["-", "JWP", "JRW"], ["-", "JRWP"], ["NewGrp", "Sub", "SetSelf"], [], maxsubs=maxsubs)
     consts_marks = mc_consts(users, sess, topics, DEV_BUILT, ["-", "JRW"], ["-", "JRW"], ["NewGrp", "Sub", "Pub", "Note"], [], maxseq=3, maxsubs=maxsubs)
 
     def one(name):
         expr, tail = goals[name]
         mod = "Goal_" + name
-        cs = consts_obo if name in OBO_GOALS or name in HIST_GOALS else consts_susp if name in OBO_PUB_GOALS else consts_susp if name in SUSP_GOALS else consts_p2p if name in P2P_GOALS else consts_marks if name in MARK_GOALS else consts_perms if name in PERM_GOALS else consts
+        cs = consts_chan if name in CHAN_GOALS else consts_obo if name in OBO_GOALS or name in HIST_GOALS else consts_susp if name in OBO_PUB_GOALS else consts_susp if name in SUSP_GOALS else consts_p2p if name in P2P_GOALS else consts_marks if name in MARK_GOALS else consts_perms if name in PERM_GOALS else consts
         defs = "\n".join("c_%s == %s" % (k, v) for k, v in cs.items())
         with open(os.path.join(ctx.specdir, mod + ".tla"), "w") as fh:
             fh.write("---- MODULE %s ----\nEXTENDS TopicCore_MC\n%s\nNotGoal == ~(%s)\n====\n" % (mod, defs, expr))
